@@ -65,7 +65,7 @@ BASE_TOKENS = [
     # template-ish fragments
     "{{t}}", "{{d|x}}", "{{d|1=", "{{tb}}", "{{te}}", "{{row|a}}", "{{li}}", "{{b|z}}", "{{sp}}", "{{nl}}", "{{eq}}",
     "{{pipe}}", "{{loop}}", "{{nest}}", "{{PAGENAME}}", "{{#if:x|y|z}}", "{{#if:", "{{#switch:a|a=1}}", "{{!}}", "{{=}}",
-    "{{{1}}}", "{{{1|d}}}", "{{{", "{{#tag:ref|x}}", "{{subst:t}}", "{{:Page}}", "{{t|", "|x=", "{{t\n|a\n}}",
+    "{{{1}}}", "{{{1|d}}}", "{{{", "{{#tag:ref|x}}", "{{#if|", "{{PAGENAME|", "|=", "|1=", "{{subst:t}}", "{{:Page}}", "{{t|", "|x=", "{{t\n|a\n}}",
     # links
     "[[L]]", "[[L|t]]", "[[File:a.png|thumb|c]]", "[[L]]s", "[[#a|]]", "[[ ]]", "[[L|", "[[Category:c]]",
     # words / text / entities / unicode
@@ -171,8 +171,16 @@ def grammar_doc(rng, depth=3):
 # nesting ladder
 # ---------------------------------------------------------------------------
 
+# shrunk witnesses of everything the soups have found so far (kept so that the quick tier sees them too)
+WITNESSES = [
+    "{{#if||={{]}}}}", "{{#if||={{a}}}}", "{{#if||1=x}}", "{{PAGENAME||=[[x]]}}", "{{#expr||=''x''}}",
+    "==<pre>==", "={{\n}}=", "==[[L\n|x]]==", "{|\n=|=", "{|\n=!!=", "<ref>\n=</ref>=", "<div>\n=</div>=",
+    "'''\n='''=", "''\n=''=", "<span>''\n=</span>=", "<pre>", "* <pre>\nx", "== a <pre> ==\nb\n",
+]
+
+
 def ladder():
-    docs = []
+    docs = list(WITNESSES)
     for n in list(range(1, 21)) + [25, 30, 40, 50, 60, 75, 90, 100]:
         docs += [
             "{{t|" * n + "x" + "}}" * n,
@@ -495,7 +503,7 @@ def make_v_docs(tier, rng):
     muts = []
     for name, text in sorted(page_texts().items()):
         muts.append(text)
-        muts += mutations(rng, text, 4000 if thorough else 100, base, html)
+        muts += mutations(rng, text, 1500 if thorough else 100, base, html)
     docs["mutation"] = muts
     return docs
 
